@@ -31,10 +31,11 @@ type Hints struct {
 	Fuel     int
 	InstDepth int
 	TrigDepth int
+	RegionCtx bool
 }
 
 func (h *Hints) clone() *Hints {
-	n := &Hints{Reveal: map[string]bool{}, NoUnfold: h.NoUnfold, Timeout: h.Timeout, Fuel: h.Fuel, InstDepth: h.InstDepth, TrigDepth: h.TrigDepth}
+	n := &Hints{Reveal: map[string]bool{}, NoUnfold: h.NoUnfold, Timeout: h.Timeout, Fuel: h.Fuel, InstDepth: h.InstDepth, TrigDepth: h.TrigDepth, RegionCtx: h.RegionCtx}
 	for k := range h.Reveal {
 		n.Reveal[k] = true
 	}
